@@ -1290,6 +1290,15 @@ impl Traceable for JsObject {
                         // Trace the result promise
                         visitor(state.result_promise.copy_ref());
                     }
+                    JsFunction::PromiseAllSettledSettle { state, .. } => {
+                        // Trace the result promise and the outcome records collected so far
+                        visitor(state.result_promise.copy_ref());
+                        for result in state.results.borrow().iter() {
+                            if let JsValue::Object(obj) = result {
+                                visitor(obj.copy_ref());
+                            }
+                        }
+                    }
                     JsFunction::Bytecode(bc)
                     | JsFunction::BytecodeGenerator(bc)
                     | JsFunction::BytecodeAsync(bc)
@@ -3151,6 +3160,13 @@ pub enum JsFunction {
         /// Index of this Promise in the race inputs (for identifying winner)
         index: usize,
     },
+    /// Promise.allSettled handler for one pending input (records its outcome at `index`)
+    PromiseAllSettledSettle {
+        state: Rc<PromiseAllSharedState>,
+        index: usize,
+        /// true = on_fulfilled handler, false = on_rejected handler
+        is_fulfill: bool,
+    },
     /// Auto-accessor getter (metadata stored in object properties)
     AccessorGetter,
     /// Auto-accessor setter (metadata stored in object properties)
@@ -3228,6 +3244,7 @@ impl JsFunction {
             JsFunction::PromiseAllFulfill { .. } => Some("promiseAllFulfill"),
             JsFunction::PromiseAllReject(_) => Some("promiseAllReject"),
             JsFunction::PromiseRaceSettle { .. } => Some("promiseRaceSettle"),
+            JsFunction::PromiseAllSettledSettle { .. } => Some("promiseAllSettledSettle"),
             JsFunction::AccessorGetter => Some("get"),
             JsFunction::AccessorSetter => Some("set"),
             JsFunction::ModuleExportGetter { .. } => Some("get"),
